@@ -457,6 +457,40 @@ Section Monitors.
     | _, _ => true
     end.
 
+  (* C07, end to end (per step): what a request READS BACK from its cookies is what the cookies hold --
+     the ID token handed downstream when no provider call intervenes, and the refresh token presented to
+     the provider, are exactly the values stored in the request's cookies (never truncated, padded or mixed).
+     Together with c07_browser (the cookies hold what was last written) this is the read-back clause. *)
+  Definition c07_e2e_step (now : time) (rq : request) (r : response) : bool :=
+    (match r_fwd r, r_calls r with
+     | Some h, [] =>
+         if gated rq then
+           forallb (fun cv : N * hval =>
+                      if N.eqb (fst cv) 3
+                      then match session_token now rq with TTok s => hval_eqb (snd cv) (HStr s) | _ => false end
+                      else true) h
+         else true
+     | _, _ => true
+     end)
+    && match r_calls r with
+       | [PRefresh old] => tval_eqb old (session_refresh now rq)
+       | _ => true
+       end.
+
+  (* C03 / C17, the login redirect: a response that sends the browser to the authorization endpoint STORES
+     (in a cookie that is set, not deleted) exactly the state, nonce and verifier it shows in that URL, in
+     an unauthenticated main cookie -- otherwise the login it starts can never be completed *)
+  Definition c03_init_step (r : response) : bool :=
+    match r_loc r with
+    | Some (LAuth _ s n c _ _) =>
+        N.eqb (r_status r) 302
+        && match emitted_main r with
+           | Some p => N.eqb (get_str 3 p) s && N.eqb (get_str 4 p) n && N.eqb (get_str 5 p) c && negb (get_bool 1 p)
+           | None => false
+           end
+    | _ => true
+    end.
+
 End Monitors.
 
 (* ------------------------------------------------------------------ applying the step monitors to a case *)
@@ -470,8 +504,10 @@ Definition steps_all (c : wcase)
 
 Definition st_c01 E cfg a (e : istr) (s : wstep) := c01_step E cfg a (w_now s) (w_rq s) (w_ans s) (w_obs s).
 Definition st_c03 E cfg (a e : istr) (s : wstep) := c03_step E cfg (w_now s) (w_rq s) (w_ans s) (w_obs s).
+Definition st_c03i (E : env) (cfg : config) (a e : istr) (s : wstep) := c03_init_step (w_obs s).
 Definition st_c04 (E : env) (cfg : config) (a e : istr) (s : wstep) := c04_step E (w_ans s) (w_obs s).
 Definition st_c06 E cfg (a e : istr) (s : wstep) := c06_step E cfg (w_now s) (w_rq s) (w_ans s) (w_obs s).
+Definition st_c07 (E : env) (cfg : config) (a e : istr) (s : wstep) := c07_e2e_step E cfg (w_now s) (w_rq s) (w_obs s).
 Definition st_c08 E cfg a (e : istr) (s : wstep) := c08_step E cfg a (w_now s) (w_rq s) (w_ans s) (w_obs s).
 Definition st_c10 E cfg (a e : istr) (s : wstep) := c10_step E cfg (w_now s) (w_rq s) (w_ans s) (w_obs s).
 Definition st_c11 E cfg (a : istr) e (s : wstep) := c11_step E cfg e (w_now s) (w_rq s) (w_obs s).
@@ -673,10 +709,10 @@ Definition c17_history (c : wcase) : bool :=
 (* ------------------------------------------------------------------ violation predicates (negated monitors) *)
 
 Definition violates_c01 (c : wcase) : bool := negb (steps_all c st_c01).
-Definition violates_c03 (c : wcase) : bool := negb (c03_history c).
+Definition violates_c03 (c : wcase) : bool := negb (c03_history c && steps_all c st_c03i).
 Definition violates_c04 (c : wcase) : bool := negb (c04_history c && steps_all c st_c04).
 Definition violates_c06 (c : wcase) : bool := negb (steps_all c st_c06).
-Definition violates_c07 (c : wcase) : bool := negb (c07_history c).
+Definition violates_c07 (c : wcase) : bool := negb (c07_history c && steps_all c st_c07).
 Definition violates_c08 (c : wcase) : bool := negb (steps_all c st_c08).
 (* C09 on observed histories: no planted secret is readable without the key (flag 4), and a cookie
    that does not decode under the deployment key FOR ITS OWN NAME contributes nothing: the gate,
@@ -688,5 +724,5 @@ Definition violates_c10 (c : wcase) : bool := negb (steps_all c st_c10).
 Definition violates_c11 (c : wcase) : bool := negb (c11_history c).
 Definition violates_c15 (c : wcase) : bool := negb (steps_all c st_c15).
 Definition violates_c16 (c : wcase) : bool := negb (steps_all c st_c16).
-Definition violates_c17 (c : wcase) : bool := negb (steps_all c st_c17 && c17_history c).
+Definition violates_c17 (c : wcase) : bool := negb (steps_all c st_c17 && c17_history c && steps_all c st_c03i).
 Definition violates_c18 (c : wcase) : bool := negb (steps_all c st_c18).
